@@ -95,7 +95,7 @@ that contain one of the others are pinned as not covered by the generic theorem 
 def Prim.proved : Prim → Bool
   | .unary | .any | .varUint _ | .bigUint _ | .bigInt _ | .grams | .signedCoins | .fixedText | .anycast
   | .msgAddress | .accountStatus | .accStatusChange | .computeSkipReason | .vmCellSlice | .payloadV1toV4
-  | .snake | .bytesSnake | .text => true
+  | .snake | .bytesSnake | .text | .addrWc => true
   | _ => false
 
 def Prim.wf : Prim → Bool
@@ -197,6 +197,7 @@ def Prim.inDom (p : Prim) (v : Val) : Bool :=
   | .varUint n, .int i => 0 ≤ i && natBytesLen i.toNat ≤ n - 1
   | .bigUint n, .int i => 0 ≤ i && i < 2 ^ n
   | .bigInt n, .int i => -(2 ^ (n - 1)) ≤ i && i < 2 ^ (n - 1)
+  | .addrWc, .cons (.int wc) (.cons (.bytes addr) .nil) => -128 ≤ wc && wc < 128 && addr.length == 32
   | .grams, .int i => 0 ≤ i && i < 2 ^ 64
   | .signedCoins, .int i => -(2 ^ 63) ≤ i && i < 2 ^ 63
   | .snake, .bits _ => true
